@@ -32,8 +32,9 @@ def main():
     ap.add_argument("--full", action="store_true")
     ap.add_argument("--checks", default="")
     ap.add_argument("--needs", default="")
+    ap.add_argument("--name", default="")
     a = ap.parse_args()
-    name = f"{a.pid}-{a.i}"
+    name = a.name or f"{a.pid}-{a.i}"
     patch = os.path.join(a.agent_dir, f"patch{a.i}.diff")
     demo = os.path.join(a.agent_dir, f"demo{a.i}.py")
     notes = os.path.join(a.agent_dir, f"notes{a.i}.md")
